@@ -152,8 +152,9 @@ pub fn record(w: &mut dyn std::io::Write, seed: u64, n_events: usize) {
     let mut rng = StdRng::seed_from_u64(seed ^ 0xC08);
     for k in 0..n_events {
         crate::ctx::beat(&format!("{{\"record\": \"c08\", \"seed\": {seed}, \"event\": {k}}}"));
-        let n = match k % 4 { 0 => rng.gen_range(8..20), 1 => rng.gen_range(20..60), 2 => rng.gen_range(60..400), _ => rng.gen_range(3..8) };
-        let span = match k % 3 { 0 => 6, 1 => 20, _ => 60 };          // small spans: many duplicates and collinear runs
+        let n = if k % 97 == 13 { [1030usize, 2060, 4100, 520][(k / 97) % 4] }      // a few large sets (size-gated code paths)
+                else { match k % 4 { 0 => rng.gen_range(8..20), 1 => rng.gen_range(20..60), 2 => rng.gen_range(60..400), _ => rng.gen_range(3..8) } };
+        let span = if n > 500 { 300 } else { match k % 3 { 0 => 6, 1 => 20, _ => 60 } };          // small spans: many duplicates and collinear runs
         let style = k % 5;
         let mut pts: Vec<Coord<f64>> = (0..n).map(|_| {
             let (x, y) = match style {
